@@ -128,11 +128,11 @@ def gamma_oracle(s, ages):
 
 # ---- workload ------------------------------------------------------------------------------------
 def cases(tier, seed):
-    for i in range(1500 if tier == "quick" else 20000):
+    for i in range(6000 if tier == "quick" else 40000):
         yield {"kind": "ultrametric", "i": i, "seed": seed}
-    for i in range(2500 if tier == "quick" else 30000):
+    for i in range(10000 if tier == "quick" else 60000):
         yield {"kind": "threshold", "i": i, "seed": seed}
-    for i in range(1200 if tier == "quick" else 15000):
+    for i in range(5000 if tier == "quick" else 30000):
         yield {"kind": "stats", "i": i, "seed": seed}
 
 
